@@ -22,22 +22,28 @@ import SoyVerif.Lemmas.FileParserBlocks
 namespace SoyVerif.Props.C05
 open SoyVerif SoyVerif.Model SoyVerif.Model.Parser SoyVerif.Model.FileParser SoyVerif.Lemmas.ParserSafe
 
+/-- the nested lexer of parseQuotedExpr delivers tokens the parser can slice -/
+def LexWF : Prop :=
+  ∀ (str : Bytes) (is : List Item), Lex.lexAll str true = .items is → ∀ it ∈ is, WFItem it
+
 /-- the run of the file parser's top loop satisfies the program logic's judgement -/
-theorem top_safe (pf : Bytes → Option UInt64) (S : Item → Prop) (hz : S Item.zero) (items : List Item)
-    (hs : ∀ x ∈ items, S x) :
-    FSafe S (itemListLoop pf (exprFuel items) (FileParser.fuelFor items.length) [.tEOF] none .nil)
-      { p := Parser.initState items } (fun _ _ => True) := by
+theorem top_safe (pf : Bytes → Option UInt64) (AP : Prop) (S : Item → Prop) (hz : S Item.zero) (items : List Item)
+    (hs : ∀ x ∈ items, S x) (hwf : ∀ it, S it → AP ∨ WFItem it)
+    (hlex : ∀ (str : Bytes) (is : List Item), Lex.lexAll str true = .items is → ∀ it ∈ is, AP ∨ WFItem it) :
+    FSafe AP S (itemListLoop pf (exprFuel items) (FileParser.fuelFor items.length) [.tEOF] none .nil)
+      { p := Parser.initState items } (fun r _ => listOK r) := by
   have hmu := mu_init items
-  have h := (fileSpecs_all S pf (exprFuel items) items.length hz
-      (by unfold exprFuel Parser.fuelFor; omega) (FileParser.fuelFor items.length)).itemListLoop
-      [.tEOF] none .nil { p := Parser.initState items } (inv_init S items hz hs) hmu
+  have h := (fileSpecs_all AP S pf (exprFuel items) items.length hz
+      (by unfold exprFuel Parser.fuelFor; omega) hwf hlex (FileParser.fuelFor items.length)).itemListLoop
+      [.tEOF] none .nil { p := Parser.initState items } childrenOK_nil (inv_init S items hz hs) hmu
       (by unfold FileParser.fuelFor; show 8 * mu (Parser.initState items) + 20 ≤ _; omega)
-  exact h.mono (fun _ _ _ => trivial)
+  exact h.mono (fun _ _ h => h.1)
 
 /-- the file parser terminates on every token list -/
 theorem parse_total (pf : Bytes → Option UInt64) (items : List Item) :
     parseFile pf (exprFuel items) items ≠ .error .fuelOut := by
-  have h := top_safe pf (fun _ => True) trivial items (fun _ _ => trivial)
+  have h := top_safe pf True (fun _ => True) trivial items (fun _ _ => trivial)
+    (fun _ _ => Or.inl trivial) (fun _ _ _ _ _ => Or.inl trivial)
   unfold FSafe at h
   unfold parseFile
   simp only [StateT.run]
@@ -55,7 +61,8 @@ theorem parse_total (pf : Bytes → Option UInt64) (items : List Item) :
 theorem parse_err_at_token (pf : Bytes → Option UInt64) (items : List Item) (pos : Nat)
     (h : parseFile pf (exprFuel items) items = .error (.err pos)) :
     pos = 0 ∨ ∃ it ∈ items, it.pos = pos := by
-  have hsafe := top_safe pf (fun it => it ∈ items ∨ it = Item.zero) (Or.inr rfl) items (fun x hx => Or.inl hx)
+  have hsafe := top_safe pf True (fun it => it ∈ items ∨ it = Item.zero) (Or.inr rfl) items (fun x hx => Or.inl hx)
+    (fun _ _ => Or.inl trivial) (fun _ _ _ _ _ => Or.inl trivial)
   unfold FSafe at hsafe
   unfold parseFile at h
   simp only [StateT.run] at h
@@ -70,6 +77,34 @@ theorem parse_err_at_token (pf : Bytes → Option UInt64) (items : List Item) (p
     rcases hit with hm | hz
     · exact Or.inr ⟨it, hm, hp⟩
     · subst hz; exact Or.inl hp.symm
+
+/-- no Go runtime panic in the file parser on well-formed tokens: the two-token array is never
+    indexed out of range, no `tok.val[1:]` / `tok.val[2:]` slices an empty value, `rawtext`
+    stays in bounds, and no type assertion of parsePlural / placeholderize fails -/
+theorem parse_no_panic_of_wf (pf : Bytes → Option UInt64) (items : List Item)
+    (hwf : ∀ it ∈ items, WFItem it) (hlex : LexWF) :
+    parseFile pf (exprFuel items) items ≠ .error .panic := by
+  have h := top_safe pf False (fun it => it ∈ items ∨ it = Item.zero) (Or.inr rfl) items (fun x hx => Or.inl hx)
+    (fun it hit => by
+      rcases hit with h | h
+      · exact Or.inr (hwf it h)
+      · subst h; exact Or.inr wf_zero)
+    (fun str is hl it hit => Or.inr (hlex str is hl it hit))
+  unfold FSafe at h
+  unfold parseFile
+  simp only [StateT.run]
+  intro hc
+  split at hc
+  · exact absurd hc (by simp)
+  · rename_i r st' hnl he
+    rw [he] at h
+    cases r <;> simp only [listOK] at h
+    exact hnl _ _ rfl
+  · rename_i e he
+    rw [he] at h
+    simp only [Except.error.injEq] at hc
+    subst hc
+    exact h
 
 /-- lexer model ∘ parser model terminates on every input -/
 theorem parse_source_total (pf : Bytes → Option UInt64) (input : Bytes) :
